@@ -126,9 +126,8 @@ Representable(b, v) == v = 1 \/ b.data # <<>> \/ b.flags = 0
 
 (* ------------------------------------------------------------ laws over the boundary grid *)
 GridLens == IF Level = 1 THEN {0, 1, 8, 255} ELSE {0, 1, 7, 8, 9, 254, 255}
-GridData == IF Level = 1 THEN {0, 1, 7, 8, 9} ELSE {0, 1, 7, 8, 9, 4095, 4096, 65536}
-GridPairs == IF Level = 1 THEN {0, 1, 65535} ELSE {0, 1, 9, 65534, 65535}
-Grid == [v : {1, 2, 3}, f : 0..255, dn : GridData, nn : GridLens, mn : GridLens, pn : GridPairs]
+GridData == IF Level = 1 THEN {0, 1, 8, 9} ELSE {0, 1, 7, 8, 9, 4095, 4096, 65536}
+GridPairs == IF Level = 1 THEN {0, 65535} ELSE {0, 1, 9, 65534, 65535}
 LayoutLaws(g) ==
   LET size == SizeOf(g.v, g.f, g.dn, g.nn, g.mn, g.pn)
       n == RecLen(size, g.v) IN
@@ -145,7 +144,8 @@ Blob(f, dn, nn, mn, pn, k) ==
   [cookie |-> <<1, 2, 3, k>>, id |-> <<0, 0, 0, 0, 0, 0, k, 9>>, flags |-> f, data |-> Fill(208, dn), name |-> Fill(160, nn),
    mime |-> Fill(176, mn), lm |-> <<1, 2, 3, 4, 5>>, ttl |-> <<3, 2>>, pairs |-> Fill(192, pn), ts |-> <<0, 1, 2, 3, 4, 5, 6, k>>]
 GatingFlags == {a + b + c + d + e : a \in {0, 2}, b \in {0, 4}, c \in {0, 8}, d \in {0, 16}, e \in {0, 32}}
-LawBlobs == {Blob(f + x, dn, nn, mn, pn, 1) : f \in GatingFlags, x \in {0, 193}, dn \in {0, 1, 3, 8}, nn \in {0, 1, 3},
+LawBlobs == {Blob(f + x, dn, nn, mn, pn, 1) : f \in GatingFlags, x \in (IF Level = 1 THEN {0} ELSE {0, 193}),
+                                            dn \in (IF Level = 1 THEN {0, 1, 8} ELSE {0, 1, 3, 8}), nn \in {0, 1, 3},
                                             mn \in {0, 2}, pn \in {0, 1}}
 GenBlobs == {Blob(0, 0, 0, 0, 0, 1), Blob(2, 0, 1, 0, 0, 2), Blob(0, 1, 0, 0, 0, 3), Blob(62, 3, 2, 1, 2, 4), Blob(129, 8, 0, 0, 0, 5)}
           \cup (IF Level = 1 THEN {} ELSE {Blob(6, 4, 3, 3, 0, 6), Blob(56, 12, 0, 0, 1, 7)})
@@ -181,7 +181,8 @@ RoundTripIffRepresentable ==
   \A b \in LawBlobs : \A v \in {1, 2, 3} :
     /\ MatchRaw(Encode(b, v), b, v)
     /\ (Decode(Encode(b, v), v) = Stored(b, v)) = Representable(b, v)
-GridLawsHold == \A g \in Grid : LayoutLaws(g)
+GridLawsHold == \A v \in {1, 2, 3}, f \in 0..255, dn \in GridData, nn \in GridLens, mn \in GridLens, pn \in GridPairs :
+                  LayoutLaws([v |-> v, f |-> f, dn |-> dn, nn |-> nn, mn |-> mn, pn |-> pn])
 (* the two laws above are constant formulas: evaluated in one initial state only *)
 LawsOnce == (hist # <<>> \/ ver # 3 \/ start # 8) \/ (GridLawsHold /\ RoundTripIffRepresentable)
 Emit == Len(hist) < MaxOps \/ PrintT(<<"W", ToJson([ver |-> ver, start |-> start, ops |-> hist])>>)
